@@ -8,7 +8,19 @@ import numpy as np
 
 import vlib
 from props import c08_stub
-from props.c01 import pre  # noqa: F401  (Gen/Pipeline.lean: getRZBoundary guard and copies)
+from props.c01 import pre as _pre_pipeline  # (Gen/Pipeline.lean: getRZBoundary guard and copies)
+
+
+def pre(res):
+    _pre_pipeline(res)
+    from gen import gen_xind
+
+    try:
+        changed = gen_xind.main()
+        res.extra.setdefault("generated", {})["xind"] = {"file": "lean/HypnoModel/Gen/XInd.lean", "changed_since_last_run": bool(changed)}
+    except Exception as e:  # fail closed
+        res.extra.setdefault("generated", {})["xind_error"] = "%s: %s" % (type(e).__name__, e)
+        res.gen_error = "%s: %s" % (type(e).__name__, e)
 
 
 def decode_next(t, x, j):
@@ -328,9 +340,15 @@ def real_grid_corners(res, tier):
 
     # circular: the only topology whose periodic y-group starts with region number 0
     specs = [gridlab.tokamak_spec("lsn"), gridlab.tokamak_spec("cdn", options={"ny_inner_upper_divertor": 2, "ny_outer_upper_divertor": 5}),
-             gridlab.circular_spec()]
+             gridlab.circular_spec(),
+             # a disconnected double null: the eight cells round the *second* X-point meet on the second separatrix
+             gridlab.tokamak_spec("ldn"),
+             # non-orthogonal with radial segments of different widths (nx = 2, 1, 2): points on a contour shared by two radially adjacent
+             # regions are placed by each region separately and must coincide
+             gridlab.tokamak_spec("ldn", options={"orthogonal": False})]
     if tier == "thorough":
-        specs += [gridlab.tokamak_spec("ldn"), gridlab.tokamak_spec("udn"), gridlab.tokamak_spec("usn", options={"y_boundary_guards": 2}),
+        specs += [gridlab.tokamak_spec("udn"), gridlab.tokamak_spec("usn", options={"y_boundary_guards": 2}),
+                  gridlab.tokamak_spec("udn", options={"orthogonal": False, "nx_inter_sep": 2}),
                   gridlab.tokamak_spec("lsn", options={"orthogonal": False, "ny_outer_divertor": 9}),
                   gridlab.circular_spec(options={"number_of_processors": 1, "nx": 3, "ny": 12})]
     for g in gridlab.get(specs):
@@ -359,6 +377,23 @@ def real_grid_corners(res, tier):
                 d = max(abs(v["Rxy_upper_left_corners"][x, a] - v["Rxy_corners"][x, b]) if "Rxy_upper_left_corners" in v else 0.0,
                         abs(v["Zxy_upper_left_corners"][x, a] - v["Zxy_corners"][x, b]) if "Zxy_upper_left_corners" in v else 0.0)
                 worst = max(worst, d)
+        # x-neighbours (contiguous in x in every topology) share the corners of their common edge
+        worst_x, where_x = 0.0, None
+        if all(("Rxy" + c) in v for c in ("_lower_right_corners", "_upper_right_corners", "_upper_left_corners", "_corners")):
+            for (a_, b_) in (("_lower_right_corners", "_corners"), ("_upper_right_corners", "_upper_left_corners")):
+                d = np.hypot(v["Rxy" + a_][:-1, :] - v["Rxy" + b_][1:, :], v["Zxy" + a_][:-1, :] - v["Zxy" + b_][1:, :])
+                if d.size and np.nanmax(d) > worst_x:
+                    worst_x = float(np.nanmax(d))
+                    where_x = tuple(int(q) for q in np.unravel_index(np.nanargmax(d), d.shape)) + (a_,)
+        res.extra.setdefault("real_grid_corner_mismatch_m", {})["%s%s g%d" % (name, "" if g["spec"].get("options", {}).get("orthogonal", True) else "-nonorth", myg)] = {
+            "y_neighbours": worst, "x_neighbours": worst_x, "x_where": where_x}
+        # each region interpolates the shared contour on its own FineContour: chord sag of the fine spacing (as for the wall points of C11)
+        nonorth_ = not g["spec"].get("options", {}).get("orthogonal", True)
+        tol_x = 2e-5 * (40.0 / g["spec"].get("options", {}).get("finecontour_Nfine", 40)) ** 2 if nonorth_ else 1e-6
+        if worst_x > tol_x:
+            res.violation("corners-x:" + name + ("" if g["spec"].get("options", {}).get("orthogonal", True) else "-nonorth"),
+                          "cells (%d, %d) and (%d, %d) are x-neighbours but the corner they share (%s of the first) differs by %.3g m between them"
+                          % (where_x[0], where_x[1], where_x[0] + 1, where_x[1], where_x[2], worst_x), {"spec": g["spec"]})
         res.case(key=("grid", name, myg), nontrivial=True, sample={"op": "corner coincidence across decoded adjacency", "grid": name,
                                                                   "max_mismatch_m": worst})
         # chi / theta computed by the real calcZShift and written by the real writeGridfile: finite, within [0, 2 pi] and increasing along
